@@ -198,7 +198,7 @@ example : (expand pay).map (fun t => (t.name, t.desc, t.disabled, t.params)) =
     [("pay_1", "Pay with currency #1", .reason "sandbox is down", [("currency", .str "EUR")]),
      ("pay_2", "Pay with currency #2", .reason "sandbox is down", [("currency", .str "USD")]),
      ("pay_3", "Pay with currency #3", .reason "sandbox is down", [("currency", .str "GBP")])] := by decide
-example : (expand pay).all (fun t => t.md.tags == ["net"] && t.deps == [["payments", "regular"]] && t.rank == 3) = true := by decide
+example : (expand pay).all (fun t => t.md.tags == ["net"] && t.deps == [.path ["payments", "regular"]] && t.rank == 3) = true := by decide
 example : (expand regular).length = 1 ∧ (expand hiddenOne).length = 0 ∧ (expand noSets).length = 0 := by decide
 example : (expand byFormat).map (fun t => (t.name, t.desc)) = [("conv_1_x", "Convert 1 to x"), ("conv_-4_y", "Convert -4 to y")] := by decide
 /-- a user callable as naming scheme -/
